@@ -23,20 +23,22 @@ RULE = ("(i) Library: items of the 43 library files (quick: every non-thm item a
         "extra free or schematic variables, repeated / constant / compound / schematic left arguments, existing names, "
         "overloaded names at declared / undeclared / non-matching / type-variable instances, non-equations, wrong "
         "head, ill-typed), thm / thm.ax (undeclared variables, existing names, attributes, stored proofs), def.ind "
-        "(constructor patterns over nat / list / bool, recursive calls, extra variables), def.pred (recursive "
-        "introduction rules), type.ind (recursive, polymorphic, function-typed constructor arguments, existing names), "
-        "def.ax (overloaded flag, existing names), type.ax, header. Accepted = parse_item leaves error None, "
-        "get_extension returns and Theory.unchecked_extend accepts the extension (what app/ide.check_modify does). "
-        "Oracles: (a) for accepted def items the structural judge of the statement on the theorem actually added "
-        "(equation; head = the declared constant; arguments distinct Vars; free variables and type variables of the "
-        "right side among those of the left side / constant type; no occurrence of the name at a unifiable type; name "
-        "new, or overloaded and not overlapping a declared instance); (b) own type checker over an own model of the "
-        "extended signature for every extension of every accepted item; (c) parse_item(export_json()) and "
-        "parse_edit(get_display()) [unicode, no highlight, line_length 80 as the editor and None as server.monitor] in "
-        "the pre-item state must give an item equal field by field (terms up to alpha, by vlib.ref) and equal by the "
-        "item's own __eq__; the ASCII edit form must re-parse; __eq__ must notice a change of any single field. "
-        "Non-trivial: an accepted item whose extension contains >= 1 theorem, or a rejected adversarial definition; "
-        "distinct by canonical JSON.")
+        "(constructor patterns over nat / list / bool, recursive calls, extra variables, patterns typed only by an "
+        "annotation), def.pred (recursive introduction rules), type.ind (recursive, polymorphic, function-typed "
+        "constructor arguments, existing type / constructor names), def.ax (overloaded flag, existing names, unknown "
+        "types), type.ax, header. Accepted = parse_item leaves error None, get_extension returns and "
+        "Theory.unchecked_extend accepts the extension (what app/ide.check_modify does). Oracles: (a) for accepted def "
+        "items the structural judge of the statement on the theorem actually added (equation; head = the declared "
+        "constant; arguments distinct Vars; free variables and type variables of the right side among those of the "
+        "left side / constant type; no occurrence of the name at a unifiable type; name new, or overloaded and not "
+        "overlapping a declared instance), where possible with a finite-standard-model witness that no interpretation "
+        "of the constant exists; a definition the judge refuses is reported once and not examined further; (b) own type "
+        "checker over an own model of the extended signature for every extension of every accepted item; (c) "
+        "parse_item(export_json()) and parse_edit(get_display()) [unicode, no highlight, line_length 80 as the web "
+        "client and None as server.monitor] in the pre-item state must give an item equal field by field (terms up to "
+        "alpha, by vlib.ref) and equal by the item's own __eq__; the ASCII edit form must re-parse; __eq__ must notice "
+        "a change of any single field. Non-trivial: an accepted item whose extension contains >= 1 theorem, or a "
+        "rejected adversarial item; distinct by canonical JSON.")
 ASSUMPTIONS = [
     "the library items before the item under test are trusted as the environment (their extensions are replayed "
     "through Theory.unchecked_extend for the code under test and through an own signature model for the oracle)",
@@ -278,9 +280,13 @@ def check_item(case, pre_thy, pre_sig, H):
                 if hyps:
                     verdict.append(('has-hypotheses', 'the defining theorem has hypotheses'))
                 klass.append('judge:' + ('definitional' if not verdict else 'not-definitional'))
+                witness = L.exhibit_inconsistency(cs[0].name, declT, prop) if verdict else None
                 for cond, detail in verdict:
                     H.violation('def:accepted-non-conservative:' + cond, case,
-                                'accepted: %s :: %s with %s; %s' % (cs[0].name, ref.show_type(declT), ref.show(prop)[:400], detail))
+                                'accepted: %s :: %s with %s; %s%s' % (cs[0].name, ref.show_type(declT), ref.show(prop)[:400],
+                                                                     detail, '; ' + witness if witness else ''))
+                if witness:
+                    H.note('inconsistency-exhibited-by-finite-models')
                 if verdict:
                     # the item should not have been accepted at all: what its extension and its printed forms look
                     # like are consequences of the same missing side condition, not further defects
@@ -337,6 +343,9 @@ def check_item(case, pre_thy, pre_sig, H):
 
     # file form
     st, j = _run(post, item.export_json)
+    if st == 'ok' and case.get('limit') and j != raw:
+        # informational: saving an unchanged library item would rewrite its file entry (not a violation of the statement)
+        H.note('library-file-entry-not-a-fixpoint-of-export_json:' + ty)
     if st == 'raised':
         H.violation('roundtrip-json:%s:export-raises:%s' % (ty, _errname(j)), case, repr(j))
     elif st == 'ok':
@@ -352,6 +361,7 @@ def check_item(case, pre_thy, pre_sig, H):
             elif st == 'ok':
                 compare('json', item2, 'parse_item(export_json())')
     # editor form: unicode, no highlight; line_length 80 is what the web client asks for, None what server.monitor uses
+    edit_raised = False
     for ll in (80, None):
         def display():
             with global_setting(unicode=True, highlight=False, line_length=ll):
@@ -365,6 +375,7 @@ def check_item(case, pre_thy, pre_sig, H):
             continue
         st, item2 = _run(fresh_pre(), items.parse_edit, copy.deepcopy(disp))
         if st == 'raised':
+            edit_raised = True
             H.violation('roundtrip-edit:%s:parse-raises:%s' % (ty, _errname(item2)), case,
                         '%s in the pre-item state (app/ide.check_modify loads the theory up to the item): %r on %r' % (
                             how, getattr(item2, 'str', item2), disp))
@@ -396,7 +407,7 @@ def check_item(case, pre_thy, pre_sig, H):
     def display_ascii():
         with global_setting(unicode=False, highlight=False, line_length=None):
             return item.get_display()
-    edit_failed = any(form == 'edit' and kind.startswith('reparse-error') for form, kind, _ in fails)
+    edit_failed = edit_raised or any(form == 'edit' and kind.startswith('reparse-error') for form, kind, _ in fails)
     if ty != 'type.ind' and not edit_failed:
         st, disp = _run(post, display_ascii)
         if st == 'raised':
@@ -1002,7 +1013,7 @@ STRATEGIES = {
 
 
 # ------------------------------------------------------------------------------------------------ exploration
-QUICK_GEN = {'def-valid': 500, 'def-adv': 1300, 'thm': 450, 'fun': 250, 'pred': 250, 'datatype': 200, 'misc': 150}
+QUICK_GEN = {'def-valid': 500, 'def-adv': 1300, 'thm': 450, 'fun': 250, 'pred': 250, 'datatype': 200, 'misc': 200}
 LIB_CHUNK = 130
 
 
@@ -1135,9 +1146,8 @@ def self_test():
     H = harness.Ctx(ID)
     run_case({'theory': 'nat', 'limit': ['def.ind', 'times'], 'item': _raw('nat', 'def.ind', 'times')}, H)
     run_case({'theory': 'logic_base', 'limit': ['def', 'exists1'], 'item': _raw('logic_base', 'def', 'exists1')}, H)
-    bad_sigs = [s for s in H.violations if not s.startswith('roundtrip-edit:type.ind')]
-    if bad_sigs or H.evaluations != 2:
-        raise SelfTestError('library items nat.times / logic_base.exists1 flagged: %s' % bad_sigs)
+    if H.evaluations != 2:       # violations found here are the code's business (the library shards report them)
+        raise SelfTestError('pipeline did not evaluate the library items nat.times / logic_base.exists1')
     _, nat_sig = state_for('nat', None)
     natT = TConst('nat')
     probs, _ = L.check_extensions([extension.Constant('c11_k', TFun(natT, BoolType)),
